@@ -18,6 +18,7 @@ WEIGHTS = [("hostile", 3), ("plain", 2), ("deep", 2), ("multi", 1), ("lines", 1)
 
 def plan(tier, seed):
     cases = _sim.plan_profiles(tier, seed, WEIGHTS, 3500, 60000)
+    cases += [{"mode": "mixed", "seed": seed, "idx": i} for i in range(150 if tier == "quick" else 3000)]
     return cases + [{"mode": "live", "seed": seed, "idx": i} for i in range(600 if tier == "quick" else 10000)]
 
 
@@ -190,7 +191,51 @@ def run_live(desc):
     return out.result()
 
 
+def run_mixed(desc):
+    """One strategy trades the same selections through a live account and a paper-trading account of the same framework: a prospective
+    order is assessed exactly as if it had been added to the book - to all of the strategy's orders on the selection."""
+    from .. import livecases
+    from flumine.order.ordertype import LimitOrder
+    from flumine.order.trade import Trade
+
+    rng = simgen.mk_rng(desc["seed"], desc["idx"], 167)
+    out = O.Out(PROPERTY)
+    st = livecases.make_strategy("M0")
+    tr, w = livecases.new_world([st], n_clients=2, paper=[False, True], usernames=["acct", "paper"])
+    try:
+        mid = w.add_market_file(livecases.static_market())
+        w.next_book(mid)
+        m = w.market(mid)
+        placed = []
+        for j in range(rng.randint(2, 5)):
+            sel = rng.choice((701, 702))
+            c = w.clients[rng.randrange(2)]
+            o = livecases.make_order(st, mid, sel=sel, side=rng.choice(("BACK", "LAY")), price=rng.choice((2.0, 3.0, 4.0)), size=rng.choice((2.0, 5.0, 10.0)), persistence="PERSIST")
+            m.place_order(o, client=c)
+            placed.append(o)
+        w.executor.run_all()
+        w.snapshot(w.clients[0])
+        for sel in (701, 702):
+            own = [o for o in placed if o.selection_id == sel]
+            for c in w.clients:
+                probe = Trade(mid, sel, 0, st).create_order(rng.choice(("BACK", "LAY")), LimitOrder(rng.choice((2.0, 3.5)), rng.choice((2.0, 6.0))))
+                probe.update_client(c)
+                views = [simrun.exposure_view(o) for o in own] + [simrun.exposure_view(probe)]
+                w_, l_ = O.selection_wpp(views)
+                got = m.blotter.get_exposures(st, (mid, sel, 0), new_order=probe)
+                out.rule("new-order")
+                if abs(got["worst_possible_profit_on_win"] - w_) > 0.011 or abs(got["worst_possible_profit_on_lose"] - l_) > 0.011:
+                    out.v("new-order-not-as-added", {"with_exclusion": False, "mixed_clients": True, "probe_paper": bool(c.paper_trade)}, got=got, expected=(w_, l_), views=views)
+        out.d("c16mixed:%d" % len(placed))
+        out.c("mixed_positions")
+    finally:
+        livecases.finish(w)
+    return out.result()
+
+
 def run(desc):
+    if desc.get("mode") == "mixed":
+        return run_mixed(desc)
     if desc.get("mode") == "live":
         return run_live(desc)
     case, snaps = build(desc)
